@@ -235,7 +235,7 @@ fn run_fs(acts: &str) -> String {
 
 /// the close code the REAL h3 endpoint uses when `bytes` (+FIN) arrive on a request stream (site s: server reading a
 /// request, c: client reading a response) or on the peer's control stream after the stream type and an empty SETTINGS
-fn run_hc(site: &str, bytes: &[u8], fin: bool) -> String {
+fn run_hc(site: &str, chunks: &[Vec<u8>], fin: bool, pattern: &str) -> String {
     use h3v::simquic::*;
     let server = site != "c";
     let w = World::new(if server { Side::Server } else { Side::Client }, 100, 100, None);
@@ -304,33 +304,44 @@ fn run_hc(site: &str, bytes: &[u8], fin: bool) -> String {
         });
     }
     ex.run();
-    let mut evs: Vec<String> = Vec::new();
-    if site == "ctl" {
-        evs.push("U2".into());
-        evs.push("2:c:000400".into());
-        if !bytes.is_empty() {
-            evs.push(format!("2:c:{}", hex(bytes)));
+    // (event, let the endpoint run afterwards?)
+    let mut evs: Vec<(String, bool)> = Vec::new();
+    let id = if site.starts_with("ctl") { 2 } else { 0 };
+    let flat: Vec<u8> = chunks.concat();
+    if site.starts_with("ctl") {
+        evs.push(("U2".into(), pattern != "A"));
+        // the stream type in a chunk of its own; `ctl`: an empty SETTINGS frame first, `ctl0`: nothing before the bytes
+        evs.push(("2:c:00".into(), pattern != "A"));
+        if site == "ctl" {
+            evs.push(("2:c:0400".into(), pattern != "A"));
         }
-        if fin {
-            evs.push("2:F".into());
+    } else if server {
+        evs.push(("B0".into(), pattern != "A"));
+    }
+    match pattern {
+        "B" => {
+            for c in chunks.iter().filter(|c| !c.is_empty()) {
+                evs.push((format!("{}:c:{}", id, hex(c)), true));
+            }
         }
-    } else {
-        if server {
-            evs.push("B0".into());
-        }
-        if !bytes.is_empty() {
-            evs.push(format!("0:c:{}", hex(bytes)));
-        }
-        if fin {
-            evs.push("0:F".into());
+        _ => {
+            if !flat.is_empty() {
+                evs.push((format!("{}:c:{}", id, hex(&flat)), pattern != "A"));
+            }
         }
     }
-    for e in evs {
+    if fin {
+        evs.push((format!("{}:F", id), true));
+    }
+    for (e, run) in evs {
         if !apply_event(&w, &e) {
             return format!("driver-error bad-event {}", e);
         }
-        ex.run();
+        if run {
+            ex.run();
+        }
     }
+    ex.run();
     let g = w.lock().unwrap();
     match &g.closed {
         Some((c, _)) => format!("code {}", c),
@@ -341,7 +352,10 @@ fn run_hc(site: &str, bytes: &[u8], fin: bool) -> String {
 fn main() {
     run_lines(|ws| match ws {
         ["fs", acts] => run_fs(acts),
-        ["hc", site, h, ending] => run_hc(site, &unhex(h), *ending == "F"),
+        ["hc", site, h, ending, pattern] => {
+            let chunks: Vec<Vec<u8>> = h.split('.').map(unhex).collect();
+            run_hc(site, &chunks, *ending == "F", pattern)
+        }
         ["fd", h] => {
             let mut b = Bytes::from(unhex(h));
             let before = b.remaining();
